@@ -34,9 +34,10 @@ def rule_R2(chk, repo):
         if not (init and cp and gg and get):
             raise AnalysisError(f'{cname}: __init__/copy_nids/generate_graph/get not all present')
         from ..canon import canonical, CLASS_L_ROLES
-        from ..normal import wrap, dictcomp_to_loops
-        cp = wrap(canonical(cp, CLASS_L_ROLES), dictcomp_to_loops)
-        gg = canonical(gg, CLASS_L_ROLES)
+        from ..normal import class_method
+        cp = class_method(cp)
+        gg = class_method(gg)
+        init = class_method(init)
         created, cleaves = tb.family_nests(init.node, tb.self_attr_root('self'))
         created.pop('L', None)
         exported, eleaves = tb.family_nests(cp.node, tb.self_attr_root('target', 'nids_'))
